@@ -544,7 +544,3 @@ func writeEvidence(id, tier string, seed int, evs []harnessEvidence, replays int
 	os.WriteFile(filepath.Join(verifRoot, "evidence", id+".json"), js, 0o644)
 }
 
-func checkC20(tier string, seed int, t0 time.Time) int {
-	fmt.Println("INCONCLUSIVE syncbmc not built yet")
-	return 3
-}
